@@ -66,8 +66,8 @@ structure Style where
   minW : Dim          -- auto = initial value
   maxW : Dim          -- auto = none (the code stores +Inf px)
   height : Dim
-  minH : Rat          -- px only in this model (auto ↦ 0)
-  maxH : Option Rat   -- px only; none = `none` (+Inf)
+  minH : Dim          -- auto = initial value (↦ 0)
+  maxH : Dim          -- auto = none (the code stores +Inf px)
   sizing : Sizing
   deriving Repr, Inhabited
 
@@ -151,6 +151,17 @@ def resolvePercentages (cbW : Rat) (cbH : MF) (s : Style) : Used :=
     | .val h => resolveOne s.height h
   let hd : Rat := boxDelta s.sizing (pl + pr) (s.bl + s.br)
   let vd : Rat := boxDelta s.sizing (pt + pb) (s.bt + s.bb)
+  -- min-height / max-height: against 0 / +Inf when the containing block's height is auto
+  -- (a percentage of +Inf is +Inf for a positive percentage; 0% would be NaN and is outside the model)
+  let minH : Rat := match cbH with
+    | .auto => resolveMin s.minH 0
+    | .val h => resolveMin s.minH h
+  let maxH : Option Rat := match cbH with
+    | .auto => (match s.maxH with
+        | .auto => none
+        | .px v => some v
+        | .pct _ => none)
+    | .val h => resolveMax s.maxH h
   let width := resolveOne s.width cbW
   let minW := resolveMin s.minW cbW
   let maxW := resolveMax s.maxW cbW
@@ -162,8 +173,8 @@ def resolvePercentages (cbW : Rat) (cbH : MF) (s : Style) : Used :=
     minW := if 0 < hd then ratMax 0 (minW - hd) else minW,
     maxW := if 0 < hd then shrinkMax hd maxW else maxW,
     height := if 0 < vd then shrinkMF vd height else height,
-    minH := if 0 < vd then ratMax 0 (s.minH - vd) else s.minH,
-    maxH := if 0 < vd then shrinkMax vd s.maxH else s.maxH }
+    minH := if 0 < vd then ratMax 0 (minH - vd) else minH,
+    maxH := if 0 < vd then shrinkMax vd maxH else maxH }
 
 /-- the three attributes `blockLevelWidth_` reads and writes -/
 structure HState where
